@@ -61,7 +61,7 @@ struct G {
     all: Vec<MarketKeys>,
 }
 
-fn glv_keys(w: &W, index: u16) -> (Pubkey, Pubkey) {
+pub fn glv_keys(w: &W, index: u16) -> (Pubkey, Pubkey) {
     let glv_token = Glv::find_glv_token_pda(&w.store, index, &w.pid).0;
     (Glv::find_glv_pda(&glv_token, &w.pid).0, glv_token)
 }
@@ -96,9 +96,13 @@ fn base_world() -> (Db, W, Vec<MarketKeys>) {
     (db, w, all)
 }
 
-fn initialize_glv(db: &mut Db, w: &W, index: u16, markets: &[&MarketKeys]) -> std::result::Result<(Pubkey, Pubkey), TxError> {
+pub fn register_token_2022(db: &mut Db) {
+    register(T22, token22_entry, db);
+}
+
+pub fn initialize_glv_ix(w: &W, index: u16, markets: &[&MarketKeys], by: Pubkey) -> solana_program::instruction::Instruction {
     let (glv, glv_token) = glv_keys(w, index);
-    let accounts = gmsol_store::accounts::InitializeGlv { authority: w.keeper, store: w.store, glv_token, glv, system_program: sys(), token_program: T22, market_token_program: spl_token::ID, associated_token_program: spl_associated_token_account::ID };
+    let accounts = gmsol_store::accounts::InitializeGlv { authority: by, store: w.store, glv_token, glv, system_program: sys(), token_program: T22, market_token_program: spl_token::ID, associated_token_program: spl_associated_token_account::ID };
     let mut i = ix(w.pid, accounts, gmsol_store::instruction::InitializeGlv { index, length: markets.len() as u16 });
     i.accounts.extend(markets.iter().map(|m| meta(m.market, false, false)));
     // market tokens and vaults in ascending market-token order, which is the order the instruction pairs them in
@@ -106,7 +110,12 @@ fn initialize_glv(db: &mut Db, w: &W, index: u16, markets: &[&MarketKeys]) -> st
     sorted.sort_by_key(|m| m.market_token);
     i.accounts.extend(sorted.iter().map(|m| meta(m.market_token, false, false)));
     i.accounts.extend(sorted.iter().map(|m| meta(ata(&glv, &m.market_token), false, true)));
-    process(db, &i, &[w.keeper]).map(|_| (glv, glv_token))
+    i
+}
+
+fn initialize_glv(db: &mut Db, w: &W, index: u16, markets: &[&MarketKeys]) -> std::result::Result<(Pubkey, Pubkey), TxError> {
+    let i = initialize_glv_ix(w, index, markets, w.keeper);
+    process(db, &i, &[w.keeper]).map(|_| glv_keys(w, index))
 }
 
 fn insert_glv_market(db: &mut Db, w: &W, glv: Pubkey, m: &MarketKeys) -> std::result::Result<(), TxError> {
